@@ -1,6 +1,7 @@
 import Driver.Common
 import Sourmash.Model.Scaled
 import Sourmash.Model.Select
+import Sourmash.Model.Md5Cache
 /-! C14 driver: exact binary64 model of the scaled <-> max_hash conversions.
 
 Stream 3 (`mrow` / `msel` / `mcsel` / `mload`): manifests and selection as consumers of the reported
@@ -91,6 +92,60 @@ def routeLoads (route : String) : Bool := ["vserde", "tserde", "vsigjson", "tsig
 def derivedMaxHash (route : String) (m : Nat) : Option Nat :=
   (routeHops route).map (fun n => (List.range n).foldl (fun m _ => reDerive m) m)
 
+/-! ### stream 5: `downsample_max_hash` with arbitrary ceilings
+
+`dsmh <v|t> <s> <m> <track> <hashes>`: a sketch created at `s` (`s = 0`: a num sketch, num 500) is
+handed the hashes (abundance `i % 3 + 1` for the i-th), then `downsample_max_hash(m)`.  Answer:
+`scaled=<reported> mh=<ceiling> mins=<kept> [abunds=<..>] compat=<check_compatible of a sketch created
+at the reported scaled> merged=<size of that sketch after merge>`, or `err CannotUpsampleScaled`.
+
+Model column: the sketch models of `Model/MinHash.lean` + `downsampleMaxHash` of `Model/Md5Cache.lean`
+(the code as it is: `downsample_scaled(scaled_for_max_hash(m))`).  Spec column, for created and
+target values in `1 ..= 2^31`: with `t = scaledForMaxHash m`, refused when `t < s`; else the result
+reports `t`, its ceiling is the ceiling of a sketch CREATED at `t`, it keeps exactly the hashes up
+to that ceiling, and a sketch created at `t` accepts it. -/
+
+def dedupSorted : List Nat → List Nat
+  | a :: b :: t => if a == b then dedupSorted (b :: t) else a :: dedupSorted (b :: t)
+  | l => l
+
+def sortNats (l : List Nat) : List Nat := dedupSorted (l.mergeSort (· ≤ ·))
+
+def dsmhShow (reported mh : Nat) (mins : List Nat) (abunds : Option (List Nat)) (compat : Bool) : String :=
+  s!"scaled={reported} mh={mh} mins={showNats mins}" ++
+    (match abunds with | some a => s!" abunds={showNats a}" | none => "") ++
+    (if compat then s!" compat=ok merged={mins.length}" else " compat=err MismatchScaled merged=err MismatchScaled")
+
+def dsmhModel (tree : Bool) (sc m : Nat) (track : Bool) (hs : List Nat) : String :=
+  let num := if sc == 0 then 500 else 0
+  let own := maxHashForScaled sc
+  let ps := hs.zipIdx.map (fun p => (p.1, p.2 % 3 + 1))
+  if tree then
+    match (ps.foldl (fun t p => t.add p.1 p.2) (MH.Tree.new num own track 21)).downsampleMaxHash m with
+    | .error e => "err " ++ e
+    | .ok t =>
+      let r := scaledForMaxHash t.maxHash
+      dsmhShow r t.maxHash t.mins t.abundVals (maxHashForScaled r == t.maxHash)
+  else
+    match (ps.foldl (fun t p => t.add p.1 p.2) (MH.Vec.new num own track 21)).downsampleMaxHash m with
+    | .error e => "err " ++ e
+    | .ok t =>
+      let r := scaledForMaxHash t.maxHash
+      dsmhShow r t.maxHash t.mins t.abunds (maxHashForScaled r == t.maxHash)
+
+def dsmhSpec (sc m : Nat) (track : Bool) (hs : List Nat) : String :=
+  let t := scaledForMaxHash m
+  if sc == 0 || sc > pow31 || t > pow31 then "-"
+  else if t < sc then "err CannotUpsampleScaled"
+  else
+    let c := maxHashForScaled t
+    let kept := sortNats (hs.filter (· ≤ c))
+    -- abundance of the i-th (distinct) hash is `i % 3 + 1`
+    let ab := kept.map (fun h => match hs.zipIdx.find? (fun p => p.1 == h) with
+      | some p => p.2 % 3 + 1
+      | none => 0)
+    dsmhShow t c kept (if track then some ab else none) true
+
 def stepC14 (s : St) (ws : List String) : St × Resp :=
   match ws with
   | "case" :: _ => ([], { model := "ok" })
@@ -119,6 +174,9 @@ def stepC14 (s : St) (ws : List String) : St × Resp :=
     match derivedMaxHash route m with
     | none => (s, { model := "bad-op" })
     | some m' => (s, { model := "mh=" ++ toString m' ++ " scaled=" ++ toString (scaledForMaxHash m') })
+  | ["dsmh", ty, sc, m, track, hs] =>
+    let sc := sc.toNat!; let m := m.toNat!; let track := track == "1"; let hs := natList hs
+    (s, { model := dsmhModel (ty == "t") sc m track hs, spec := dsmhSpec sc m track hs })
   | ["msel", k, n, sc] => (s, manifestOps s "msel" k n sc)
   | ["mcsel", k, n, sc] => (s, manifestOps s "mcsel" k n sc)
   | ["mload", k, n, sc] => (s, manifestOps s "mload" k n sc)
